@@ -37,7 +37,7 @@ EXTRA_C34 := $(B)/h/shim_nat.o
 .PHONY: all repo bins clean tsan
 all: repo bins
 repo: $(B)/asan/libeph.a $(B)/bin/eph $(B)/bin/eph-relay-server
-bins: $(RC_BINS) $(FUZZ_BINS)
+bins: $(RC_BINS) $(FUZZ_BINS) $(if $(wildcard harness/C36_tsan.cpp),$(B)/bin/C36_tsan)
 tsan: $(B)/tsan/libeph.a
 
 .SECONDARY:
